@@ -50,7 +50,7 @@ type c18AOp struct {
 	Op     string `json:"op"` // alloc | free | write | cycle | step | reload | reopen
 	ID     uint32 `json:"id,omitempty"`
 	Seed   uint32 `json:"seed,omitempty"`
-	Chunk  int    `json:"chunk,omitempty"`  // step: chunk selector (mod number of chunks)
+	Chunk  int    `json:"chunk,omitempty"`  // step: chunk selector (mod number of chunks); -1 = one batch in every chunk
 	Inter  string `json:"inter,omitempty"`  // step: "", "free" (free a batch member), "alloc" (allocate+write a fresh id)
 	Victim int    `json:"victim,omitempty"` // step/free: index into the batch (mod len)
 }
@@ -346,10 +346,17 @@ func (r *c18Runner) step(op c18AOp) string {
 	if nch == 0 {
 		return ""
 	}
-	chunk := op.Chunk % nch
-	if chunk < 0 {
-		chunk = -chunk
+	if op.Chunk < 0 { // sweep: one batch in every chunk, lowest first
+		for ci := 0; ci < nch; ci++ {
+			o := op
+			o.Chunk = ci
+			if m := r.step(o); m != "" {
+				return m
+			}
+		}
+		return ""
 	}
+	chunk := op.Chunk % nch
 	batch := ac.identifyVectorsToMove(chunk, 100)
 	if len(batch) == 0 {
 		ac.tryDropEmptyChunks()
@@ -539,7 +546,7 @@ func c18GenACase(col *verifkit.Collector) *rapid.Generator[c18ACase] {
 	return rapid.Custom(func(rt *rapid.T) c18ACase {
 		c := c18ACase{
 			VecSize:  rapid.SampledFrom([]int{1, 3, 8, 24, 64, 100, 512, 4096}).Draw(rt, "vecsize"),
-			PerChunk: rapid.SampledFrom([]int{1, 2, 3, 4, 8}).Draw(rt, "perchunk"),
+			PerChunk: rapid.SampledFrom([]int{1, 2, 2, 3, 3, 4, 4, 8, 8}).Draw(rt, "perchunk"),
 		}
 		universe := c.PerChunk * rapid.IntRange(3, 6).Draw(rt, "chunks")
 		if universe < 6 {
@@ -549,6 +556,13 @@ func c18GenACase(col *verifkit.Collector) *rapid.Generator[c18ACase] {
 		pre := rapid.IntRange(0, universe).Draw(rt, "prefill")
 		for i := 0; i < pre; i++ {
 			c.Ops = append(c.Ops, c18AOp{Op: "alloc", ID: uint32(i), Seed: uint32(i)})
+		}
+		if pre >= 2 && rapid.Bool().Draw(rt, "holes") {
+			nf := rapid.IntRange(1, pre-1).Draw(rt, "nholes")
+			for _, h := range rapid.SliceOfNDistinct(rapid.IntRange(0, pre-1), nf, nf, func(x int) int { return x }).Draw(rt, "holeids") {
+				c.Ops = append(c.Ops, c18AOp{Op: "free", ID: uint32(h)})
+			}
+			c.Ops = append(c.Ops, c18AOp{Op: "step", Chunk: -1})
 		}
 		n := rapid.IntRange(1, 40).Draw(rt, "nops")
 		cycles := 0
@@ -562,7 +576,10 @@ func c18GenACase(col *verifkit.Collector) *rapid.Generator[c18ACase] {
 			case k < 12:
 				op = c18AOp{Op: "write", ID: id(), Seed: rapid.Uint32().Draw(rt, "seed")}
 			case k < 16:
-				op = c18AOp{Op: "step", Chunk: rapid.IntRange(0, 7).Draw(rt, "chunk")}
+				op = c18AOp{Op: "step", Chunk: rapid.IntRange(-4, 7).Draw(rt, "chunk")}
+				if op.Chunk < 0 {
+					op.Chunk = -1
+				}
 				switch rapid.IntRange(0, 3).Draw(rt, "inter") {
 				case 0:
 					op.Inter = "free"
@@ -631,7 +648,7 @@ func c18ALabels(c c18ACase, r *c18Runner) (bool, []string) {
 	return nt, labels
 }
 
-const c18ARule = "rapid: vector size from {1,3,8,24,64,100,512,4096} bytes, vectors per chunk lowered to {1,2,3,4,8} (64 MiB sparse chunk files), id universe 3-6 chunks wide; history = prefill allocs + 1-40 ops from alloc(+write) / alloc of a live id / free / overwrite / deterministic compaction step (identifyVectorsToMove->snapshot->FindFreeSlots->[nothing | FreeSlot of a batch member | alloc of a fresh id]->moveBatch->tryDropEmptyChunks) / real RunCycle (<=2 per case, started compactor, deadline then Stop()) / GetState->LoadState / GetState->Close->reopen->LoadState; then a drain (fresh allocs until every free slot was handed out again) and a final close/reopen; oracle after every step: every live id reads its own pattern, live physical slots pairwise distinct, no live id in a missing/dropped chunk, the caller's node pointer aliases the current slot; non-trivial = live ids reached >=3 chunks AND a freed slot was reused AND (a vector was relocated OR the arena was reopened mid-history)"
+const c18ARule = "rapid: vector size from {1,3,8,24,64,100,512,4096} bytes, vectors per chunk lowered to {1,2,3,4,8} (64 MiB sparse chunk files), id universe 3-6 chunks wide; history = prefill allocs [+ a generated set of frees and one compaction sweep] + 1-40 ops from alloc(+write) / alloc of a live id / free / overwrite / deterministic compaction step in one chunk or sweep over all chunks (identifyVectorsToMove->snapshot->FindFreeSlots->[nothing | FreeSlot of a batch member | alloc of a fresh id]->moveBatch->tryDropEmptyChunks) / real RunCycle (<=2 per case, started compactor, deadline then Stop()) / GetState->LoadState / GetState->Close->reopen->LoadState; then a drain (fresh allocs until every free slot was handed out again) and a final close/reopen; oracle after every step: every live id reads its own pattern, live physical slots pairwise distinct, no live id in a missing/dropped chunk, the caller's node pointer aliases the current slot; non-trivial = live ids reached >=3 chunks AND a freed slot was reused AND (a vector was relocated OR the arena was reopened mid-history)"
 
 func TestVerif_C18_arena(t *testing.T) {
 	c18Quiet()
@@ -657,7 +674,7 @@ func TestVerif_C18_arena(t *testing.T) {
 		}
 		return
 	}
-	verifkit.RapidSetup(400, 8000)
+	verifkit.RapidSetup(600, 60000)
 	gen := c18GenACase(col)
 	rapid.Check(t, func(rt *rapid.T) {
 		c := gen.Draw(rt, "case")
